@@ -3,6 +3,7 @@ package common
 
 import (
 	"bufio"
+	"crypto/sha256"
 	"encoding/hex"
 	"encoding/json"
 	"fmt"
@@ -109,6 +110,14 @@ func Main(modes map[string]Mode) {
 		res["id"] = j.ID
 		res["cpu_ms"] = c1 - c0
 		res["maxrss_kib"] = rss
+		if j.OptBool("digest", false) {
+			// metamorphic comparisons only need to know whether two outputs are identical
+			for k, v := range res {
+				if k != "stack" {
+					res[k] = digestOnly(v)
+				}
+			}
+		}
 		if j.OptBool("sizes_only", false) {
 			// resource probing: the caller wants to know how much was produced, not what
 			for k, v := range res {
@@ -123,6 +132,20 @@ func Main(modes map[string]Mode) {
 		}
 		out.Flush()
 	}
+}
+
+func digestOnly(v any) any {
+	switch x := v.(type) {
+	case string:
+		if len(x) > 256 {
+			return map[string]any{"sha256": hex.EncodeToString(func() []byte { h := sha256.Sum256([]byte(x)); return h[:] }()), "len": len(x)}
+		}
+	case map[string]any:
+		for k, e := range x {
+			x[k] = digestOnly(e)
+		}
+	}
+	return v
 }
 
 func sizesOnly(v any) any {
